@@ -29,7 +29,7 @@ MANIFEST = {
     'note': 'Safety only: shutdown_terminates (liveness under fair delivery) is NOT proved, termination of shutdown is '
             'checked on the explored schedules. BaseException subclasses escaping a first segment (CancelledError, '
             'KeyboardInterrupt) are outside the model (the handlers are `except Exception`). Barriers inside coroutines '
-            '(depth>0) are covered by the theorem but exercised only at top level. Programs avoid `%` (F-C08-1). '
+            '(depth>0) are covered by the theorem but exercised only at top level. Shutdown is also exercised with --no-barrier (barriers disabled must not weaken shutdown) and a lagging party; the barrier statements themselves are checked with barriers enabled only. '
             'Trusted: Coq kernel + vm_compute, ast extraction of the +=/-= sites, lib.sim.',
     'technique': 'Coq invariant proofs (counter + shutdown machine) + generated balance obligation + simulator event replay',
 }
@@ -102,16 +102,25 @@ def run(ctx):
     for ci, (m, t) in enumerate(base.CONFIGS):
         progs = [base.gen_spec(rng, m, ctx.n(26, 40), with_barrier=True, with_exc=True) for _ in range(ctx.n(3, 6))]
         # the last program of a session leaves coroutines running (results never awaited): shutdown has to wait for them
-        progs[-1][0]['ops'] += [['mul', 0, 1], ['lt', 1, 0], ['transfer_all', 'Z'], ['mul', 0, 0], ['eq', 0, 1]]
-        for pn, pf in base.policies(rng, m, nhold=ctx.n(2, m * (m - 1)), nrand=ctx.n(2, 4)):
-            if time.time() - t0 > budget * (ci + 1) / len(base.CONFIGS):
+        base.add_unawaited_chain(progs[-1][0])
+        # shutdown scenarios with barriers DISABLED (programs without barrier statements) and one lagging party
+        nb_progs = [base.gen_spec(rng, m, ctx.n(20, 36), with_exc=True) for _ in range(2)]
+        base.add_unawaited_chain(nb_progs[-1][0])
+        pols = [(pn, pf, ()) for pn, pf in base.policies(rng, m, nhold=ctx.n(2, m * (m - 1)), nrand=ctx.n(2, 4))]
+        lag = rng.randrange(m)
+        pols += [('fifo', pols[0][1], ('--no-barrier',)), ('lag:%d:25' % lag, base.lagging(m, lag, 25), ('--no-barrier',)),
+                 ('lag:%d:25' % ((lag + 1) % m), base.lagging(m, (lag + 1) % m, 25), ())]
+        all_progs = progs
+        for pn, pf, extra in pols:
+            if time.time() - t0 > budget * (ci + 1) / len(base.CONFIGS) and not extra:
                 ctx.notes.append('time budget: skipped %s for (%d,%d)' % (pn, m, t))
                 continue
-            sess = base.Session(m, t, ctx.seed + 7)
+            progs = nb_progs if extra else all_progs
+            sess = base.Session(m, t, ctx.seed + 7, extra=extra, start_policy=pf())
             try:
                 ll = LevelLog(sess)
                 sim = sess.sim
-                key0 = {'m': m, 't': t, 'schedule': pn}
+                key0 = {'m': m, 't': t, 'schedule': pn, 'options': list(extra)}
                 failed = False
                 for pi, (spec, want) in enumerate(progs):
                     blog = [[] for _ in range(m)]
@@ -147,7 +156,7 @@ def run(ctx):
                             meta.append((dict(key0, program=pi, party=i), [v - lstart[i] for v in vals]))
                     # a pending coroutine at the moment the barrier was reached makes the case non-trivial: approximated
                     # by "the program has a barrier directly after un-awaited secure operations"
-                    ctx.case(key, nontrivial=any(pre for i in range(m) for pre, _ in blog[i]), kind='(%d,%d) %s' % (m, t, pn.split(':')[0]))
+                    ctx.case(key, nontrivial=any(pre for i in range(m) for pre, _ in blog[i]) or bool(extra), kind='(%d,%d) %s%s' % (m, t, pn.split(':')[0], ' no-barrier' if extra else ''))
                 if failed:
                     continue
                 # ---- shutdown
